@@ -85,6 +85,35 @@ def check(ctx):
                              "penalty (not of the scaled precision) and are passed on",
                ok_rank and ok_base and ok_ev,
                detail=f"rank={short(rank or (), 80)} base={short(base or (), 80)}")
+        # the four supplied / not supplied combinations, partially evaluated
+        from .c13 import partial_eval
+        evals_t = ("call", ("g", "jax.numpy.linalg.eigvalsh"), (n("pen"),), ())
+        bad_c = []
+        for r_none in (True, False):
+            for p_none in (True, False):
+                facts_ = {("cmp", "is", n("rank"), c(None)): r_none,
+                          ("cmp", "is", n("log_pdet"), c(None)): p_none}
+                r_eff = partial_eval(rank, facts_) if rank is not None else None
+                b_eff = partial_eval(base, facts_) if base is not None else None
+                want_r = ("call", ("g", "liesel.distributions.mvn_degen._rank"), (evals_t,), ()) \
+                    if r_none else n("rank")
+                ok_rr = r_eff == want_r or (r_none and is_call(
+                    r_eff or (), "liesel.distributions.mvn_degen._rank")
+                    and kw(r_eff, "eigenvalues", 0) == evals_t)
+                if p_none:
+                    ok_bb = (is_call(b_eff or (), "liesel.distributions.mvn_degen._log_pdet")
+                             and kw(b_eff, "eigenvalues", 0) == evals_t
+                             and kw(b_eff, "rank", 1) == r_eff)
+                else:
+                    ok_bb = b_eff == n("log_pdet")
+                if not (ok_rr and ok_bb):
+                    bad_c.append(f"rank {'missing' if r_none else 'given'}, log_pdet "
+                                 f"{'missing' if p_none else 'given'}: rank={short(r_eff or (), 60)} "
+                                 f"log_pdet base={short(b_eff or (), 60)}")
+        ctx.ob("C18.R1", fi, "a supplied rank / log-pdet is used as given, a missing one is "
+                             "derived from the eigenvalues of the penalty (with the effective "
+                             "rank) -- all four combinations", not bad_c,
+               detail="; ".join(bad_c[:2]), stmt=f"{ctor} rank/log_pdet combos " + "; ".join(bad_c[:1])[:120])
         ctx.ob("C18.R1", fi, "loc is passed through", kw(rt, "loc", 0) == n("loc"))
     ctx.require_min("penalty constructors", len(pairs), 2)
 
@@ -196,6 +225,7 @@ def check(ctx):
             if isinstance(null_scale, bool):
                 continue
             ok5 = null_scale == 0 and abs(range_scale - 0.5) < 1e-12
+            scale = cand
             detail5 = (f"scale of a null-space direction (eigenvalue 0) = {null_scale}, of a "
                        f"range direction with eigenvalue 4 = {range_scale}")
             break
@@ -205,6 +235,45 @@ def check(ctx):
                          "tolerance) by exactly 0, so samples stay in the range space", ok5
            and uses_vecs, unproven="unmodelled" in detail5, detail=detail5,
            stmt="sqrt pcov " + detail5[:120])
+    sn = method(repo, mv, "_sample_n", own=True)
+    rsn = evaluate(repo, sn).ret()
+    # how the eigenvectors meet the scales: Q @ diag(scale)  (column j scaled by scale_j)
+    comb_ok, comb_detail = False, short(rsq or (), 120)
+    if rsq is not None and rsq[0] == "op" and scale is not None:
+        a_, b_ = rsq[2], rsq[3]
+
+        def diag_of(t):
+            """t embeds `scale` on the diagonal of a zero matrix / is diag(scale)."""
+            if is_call(t, "jax.numpy.diag", "jax.numpy.diagflat") and t[2][:1] == (scale,):
+                return True
+            if t[0] == "call" and t[1][0] == "a" and t[1][2] == "set" and t[2] == (scale,) \
+                    and t[1][1][0] == "s" and t[1][1][1][0] == "a" and t[1][1][1][2] == "at" \
+                    and is_call(t[1][1][1][1], "jax.numpy.zeros", "jax.numpy.zeros_like"):
+                idx = t[1][1][2]
+                if idx[0] == "tuple" and len(idx[1]) >= 2 and idx[1][-1] == idx[1][-2] \
+                        and is_call(idx[1][-1], "tuple", "jax.numpy.arange", "range", "list"):
+                    return True
+            return False
+        if rsq[1] == "@" and a_ == vec_t and diag_of(b_):
+            comb_ok = True
+        elif rsq[1] == "*" and vec_t in (a_, b_):
+            other = b_ if a_ == vec_t else a_
+            # broadcasting the scale vector over the rows scales the columns
+            comb_ok = (is_call(other, "jax.numpy.expand_dims") and kw(other, "axis", 1) == c(-2)
+                       and (other[2][0] == scale or other == scale)) or other == (
+                "s", scale, ("tuple", (c(Ellipsis), c(None), ("slice", c(None), c(None), c(None)))))
+        comb_detail = f"{short(a_, 40)} {rsq[1]} {short(b_, 60)}"
+    ctx.ob("C18.R5", sq, "the square root is Q @ diag(scale): eigenvector j (column j of Q) is "
+                         "scaled by the scale of eigenvalue j", comb_ok, unproven=True,
+           detail=comb_detail, stmt="sqrt pcov combination " + comb_detail[:100])
+    ok_mm = False
+    if rsn is not None:
+        mm = [x for x in subterms(rsn) if x[0] == "op" and x[1] == "@"]
+        ok_mm = len(mm) >= 1 and all(
+            any(y == ("a", n("self"), "_sqrt_pcov") for y in subterms(x[2]))
+            and any(is_call(y, "jax.random.normal") for y in subterms(x[3])) for x in mm)
+    ctx.ob("C18.R5", sn, "the noise is multiplied from the right: sqrt_pcov @ z", ok_mm,
+           stmt="sample product")
     eigp = method(repo, mv, "eig", own=True)
     ctx.ob("C18.R5", eigp, "the eigen-decomposition is that of the precision matrix",
            evaluate(repo, eigp).ret() == ("call", ("g", "jax.numpy.linalg.eigh"),
